@@ -276,13 +276,24 @@ def check_robust(R, variant, yy, nodata, llas, p, ykind):
 
 def gen_case(rng, it, robust):
     n = int(rng.choice([5, 6, 8, 12, 20, 36, 72, 120, 200])) if it % 3 else int(rng.integers(5, 201))
-    kinds = ["season", "noise", "walk", "steps", "spiky", "smallrange", "neg", "const", "linear", "flatspikes", "flatspikes", "flatspikes"]
+    kinds = ["season", "noise", "walk", "steps", "spiky", "smallrange", "neg", "const", "linear", "flatspikes", "flatspikes", "flatspikes", "nearflat", "nearflat", "nearflat"]
     kind = kinds[it % len(kinds)]
+    if kind == "nearflat":
+        # a quiet series (a few counts of noise) with one to three large spikes or bumps: the first robust pass accepts new
+        # weights, a later one finds (almost) nothing left to weight and must keep the weights it has
+        n = int(rng.integers(10, 41))
     if kind == "const":
         # 0 is the constant people special-case (an all-dry pixel): every fit, residual and score is exactly 0.0
         y = np.full(n, float([0, rng.integers(-5000, 5000), 0, 1, -1, rng.integers(-5000, 5000)][(it // 12) % 6]))
     elif kind == "linear":
         y = (rng.integers(-20, 21) * np.arange(n) + rng.integers(-3000, 3000)).astype(float)
+    elif kind == "nearflat":
+        y = float(rng.integers(50, 3000)) + rng.choice([-2, -1, 0, 0, 0, 1, 1, 2], n).astype(float)
+        k = int(rng.integers(1, 4))
+        pos = rng.choice(n, k, replace=False)
+        y[pos] += rng.integers(300, 3000, k) * rng.choice([-1, 1], k)
+        if rng.random() < 0.3:  # a bump two cells wide
+            y[np.minimum(pos + 1, n - 1)] = y[pos]
     elif kind == "flatspikes":
         y = np.full(n, float(rng.integers(100, 5000)))
         k = max(1, int(n * rng.uniform(0.05, 0.3)))
